@@ -280,6 +280,24 @@ class Node(object):
         return '<%s #%d %s:%d>' % (self.k, self.i, os.path.basename(self.file), self.line)
 
 
+def synth_binary(fn, op, lhs, rhs, at):
+    """a synthetic BinaryOperator node `lhs op rhs` (used for the implicit comparison of a switch edge): its operands
+    are the real nodes, its location is that of `at` (the case label)"""
+    key = ('synth', op, lhs.i, rhs.i)
+    cache = fn.__dict__.setdefault('_synth', {})
+    if key in cache:
+        return cache[key]
+    n = Node.__new__(Node)
+    n.j = {'k': 'BinaryOperator', 'op': op, 'i': -1000 - len(cache), 'l': at.j['l'], 'synthetic': True}
+    n.parent = at
+    n.fn = fn
+    n.idx = 0
+    n.c = [lhs, rhs]
+    fn.nodes[n.j['i']] = n
+    cache[key] = n
+    return n
+
+
 class Block(object):
     __slots__ = ('id', 'elems', 'succ', 'succ_all', 'preds', 'term', 'termk', 'tc', 'noreturn', 'j')
 
@@ -577,6 +595,37 @@ class CFG(object):
         if cn is None:
             return None
         return cn.strip()
+
+    def switch_edges(self, blk):
+        """for a block ending in `switch (E)`: (E node, [(succ index, synthetic `E == c` node | None for default)]) or None.
+        A case label whose value is not a constant makes the switch unsupported (None)."""
+        if blk.termk != 'SwitchStmt' or blk.tc is None or blk.tc < 0:
+            return None
+        e = self.fn.nodes.get(blk.tc)
+        if e is None:
+            return None
+        out = []
+        for ix, s in enumerate(blk.succ_all):
+            if s is None:
+                out.append((ix, None))
+                continue
+            lb = self.blocks[s].j.get('label_id')
+            ln = self.fn.nodes.get(lb) if lb is not None and lb >= 0 else None
+            if ln is not None and ln.k == 'CaseStmt' and ln.c and ln.parent is not None and self._switch_of(ln) is self.fn.nodes.get(blk.term):
+                if len(ln.c) != 2 or ln.c[0].cv is None:
+                    return None
+                out.append((ix, synth_binary(self.fn, '==', e, ln.c[0], ln)))
+            else:
+                out.append((ix, None))     # default label, or the statement after the switch
+        if len([1 for (_ix, c) in out if c is None]) != 1:
+            return None
+        return e, out
+
+    def _switch_of(self, case):
+        p = case.parent
+        while p is not None and p.k != 'SwitchStmt':
+            p = p.parent
+        return p
 
     def branch_blocks(self):
         """blocks that end in a two-way branch with a condition"""
